@@ -42,8 +42,12 @@ func syncConfig(h int, hc HookCfg) string {
 	if hc.V0 {
 		var kb []map[string]any
 		for j := range hc.Kube {
-			kb = append(kb, map[string]any{"name": fmt.Sprintf("k%d", syncNum(h, j+1)), "kind": "ConfigMap",
-				"namespaceSelector": map[string]any{"matchNames": []string{"default"}}})
+			m := map[string]any{"name": fmt.Sprintf("k%d", syncNum(h, j+1)), "kind": "ConfigMap",
+				"namespaceSelector": map[string]any{"matchNames": []string{"default"}}}
+			if hc.Kube[j].AF {
+				m["allowFailure"] = true
+			}
+			kb = append(kb, m)
 		}
 		cfg := map[string]any{"schedule": []map[string]any{{"name": "s", "crontab": never}}}
 		if len(kb) > 0 {
@@ -57,6 +61,9 @@ func syncConfig(h int, hc HookCfg) string {
 		m := map[string]any{"name": fmt.Sprintf("k%d", syncNum(h, j+1)), "apiVersion": "v1", "kind": "ConfigMap",
 			"namespace": map[string]any{"nameSelector": map[string]any{"matchNames": []string{"default"}}},
 			"executeHookOnSynchronization": k.Exec}
+		if k.AF {
+			m["allowFailure"] = true
+		}
 		if k.Group != 0 {
 			m["group"] = groups[k.Group%len(groups)]
 		}
@@ -220,9 +227,9 @@ func (g *gen) syncSession() Input {
 			if !g.r.Chance(60) {
 				grp = g.r.Intn(3)
 			}
-			k := KB{Group: grp, Exec: !g.r.Chance(45)}
+			k := KB{Group: grp, Exec: !g.r.Chance(45), AF: g.r.Chance(40)}
 			if hc.V0 {
-				k = KB{}
+				k = KB{AF: k.AF}
 			}
 			hc.Kube = append(hc.Kube, k)
 		}
@@ -249,6 +256,11 @@ func (g *gen) syncSession() Input {
 			grp = 0
 		}
 		t := Task{Id: g.nextId(), Hook: h, Ctxs: []Ctx{{Tag: g.tag, Group: grp}}, Mids: []int{}, Kube: g.r.Chance(55), Group: grp, Qn: 1, Name: 1}
+		// the policy of the binding the event / tick comes from: one of the hook's kubernetes bindings, or a schedule binding
+		t.AF = g.r.Chance(40)
+		if t.Kube && len(hc.Kube) > 0 && g.r.Chance(60) {
+			t.AF = hc.Kube[g.r.Intn(len(hc.Kube))].AF
+		}
 		if g.r.Chance(12) { // a task that already holds two contexts (the state a failed, merged head leaves)
 			g.tag++
 			t.Ctxs = append(t.Ctxs, Ctx{Tag: g.tag, Group: grp})
@@ -271,7 +283,7 @@ func (g *gen) syncSession() Input {
 			k := hc.Kube[j]
 			n := syncNum(h, j+1)
 			q = append(q, Task{Id: g.nextId(), Hook: h, Ctxs: []Ctx{{Tag: n, Group: k.Group, Sync: true}}, Mids: []int{n},
-				Kube: true, Group: k.Group, Exec: k.Exec, Qn: 1, Name: 1})
+				Kube: true, Group: k.Group, Exec: k.Exec, AF: k.AF, Qn: 1, Name: 1})
 			if g.r.Chance(15) {
 				q = append(q, synthetic(h))
 			}
@@ -318,7 +330,7 @@ func SyncCorpus() []Input {
 	var ins []Input
 	syncT := func(id, h, j int, k KB) Task {
 		n := syncNum(h, j)
-		return Task{Id: id, Hook: h, Ctxs: []Ctx{{Tag: n, Group: k.Group, Sync: true}}, Mids: []int{n}, Kube: true, Group: k.Group, Exec: k.Exec, Qn: 1, Name: 1}
+		return Task{Id: id, Hook: h, Ctxs: []Ctx{{Tag: n, Group: k.Group, Sync: true}}, Mids: []int{n}, Kube: true, Group: k.Group, Exec: k.Exec, AF: k.AF, Qn: 1, Name: 1}
 	}
 	ev := func(id, h, tag, grp int) Task {
 		return Task{Id: id, Hook: h, Ctxs: []Ctx{{Tag: tag, Group: grp}}, Mids: []int{}, Kube: true, Group: grp, Qn: 1, Name: 1}
@@ -358,5 +370,14 @@ func SyncCorpus() []Input {
 	add([]HookCfg{{V0: true, Kube: []KB{{}, {}}}, {Kube: []KB{ord}}}, heads(5), syncT(1, 1, 1, KB{}), syncT(2, 1, 2, KB{}), ev(3, 1, 1, 0), sch(4, 1, 2, 0), syncT(5, 2, 1, ord))
 	// grouped Synchronizations that are all executed: merged and compacted to the last one; the run fails once
 	add([]HookCfg{{Kube: []KB{ord, ord, {Group: 2, Exec: true}}}}, heads(3, 0), syncT(1, 1, 1, ord), syncT(2, 1, 2, ord), syncT(3, 1, 3, KB{Group: 2, Exec: true}), sch(4, 1, 1, 2))
+	// failure policies: bindings of one group that declare different allowFailure - their REAL Synchronization
+	// tasks (strict, lenient) and a lenient event are merged into one run, which fails and is retried
+	len1 := KB{Group: 1, Exec: true, AF: true}
+	lev := ev(3, 1, 1, 1)
+	lev.AF = true
+	add([]HookCfg{{Kube: []KB{ord, len1}}, {Kube: []KB{}}}, heads(3, 0), syncT(1, 1, 1, ord), syncT(2, 1, 2, len1), lev, sch(4, 2, 2, 0))
+	// the lenient Synchronization first, a strict tick behind it; all lenient: the failed run is forgiven
+	add([]HookCfg{{Kube: []KB{len1, ord}}}, heads(3, 0), syncT(1, 1, 1, len1), syncT(2, 1, 2, ord), sch(3, 1, 1, 1))
+	add([]HookCfg{{Kube: []KB{len1, len1}}}, heads(2, 0), syncT(1, 1, 1, len1), syncT(2, 1, 2, len1), lev)
 	return ins
 }
